@@ -141,13 +141,24 @@ def run(tier, t0):
                 lits = [arg[1]]
             else:
                 # a name taken from a literal table in the same function: (index (array ..) ..) / iterator over an array literal
+                # ... or a `const` table of the module that the function iterates over.  Exactly one such table per function.
+                tables = []
                 for b2 in sorted(f.reach):
                     for s in f.blocks[b2]['s']:
-                        if s['k'] == 'assign' and s['rv']['k'] == 'agg' and s['rv'].get('ak') == 'array':
+                        if s['k'] != 'assign':
+                            continue
+                        if s['rv']['k'] == 'agg' and s['rv'].get('ak') == 'array':
                             vals = [f.operand_tree(x) for x in s['rv']['xs']]
-                            if vals and all(v[0] == 'str' for v in vals) and f.local_name(s['lhs']['l']) == 'output_regs':
-                                sub = 'RangeFrom 1' in show(arg) or 'RangeFrom::RangeFrom 1' in show(arg)
-                                lits = [v[1][1:] if sub else v[1] for v in vals]
+                            if vals and all(v[0] == 'str' for v in vals):
+                                tables.append([v[1] for v in vals])
+                        for x in walk(f.rvalue_tree(s['rv'])):
+                            if isinstance(x, tuple) and x and x[0] == 'item' and str(x[1]).startswith('breakpad_symbols::'):
+                                lst = const_str_list(prog, 'breakpad_symbols', x[1])
+                                if lst and lst not in tables:
+                                    tables.append(lst)
+                if len(tables) == 1:
+                    sub = 'RangeFrom 1' in show(arg) or 'RangeFrom::RangeFrom 1' in show(arg)
+                    lits = [v[1:] if sub else v for v in tables[0]]
                 if not lits:
                     if f.path.startswith(W + 'eval_cfi_expr') or f.path.startswith(W + 'walk_with_stack_cfi'):
                         continue  # CFI: names come from the symbol file, resolved by the context's own tables
